@@ -389,7 +389,7 @@ fn cmd_copy() -> i32 {
             });
             // the documented client loop: iterate until the channel closes
             loop {
-                match rx.recv_timeout(timeout) {
+                match recv_live(&rx, timeout) {
                     Ok(u) => {
                         let x = upd_of(&u);
                         if let Some(m) = &marker {
@@ -404,7 +404,7 @@ fn cmd_copy() -> i32 {
                     }
                 }
             }
-            match done_rx.recv_timeout(timeout) {
+            match recv_live(&done_rx, timeout) {
                 Ok(r) => result = r,
                 Err(_) => {
                     returned = false;
@@ -419,7 +419,7 @@ fn cmd_copy() -> i32 {
                 let r = drv.copy(sources, &dest, stats).map_err(|e| e.to_string());
                 let _ = done_tx.send(r);
             });
-            match done_rx.recv_timeout(timeout) {
+            match recv_live(&done_rx, timeout) {
                 Ok(r) => result = r,
                 Err(_) => {
                     returned = false;
@@ -435,7 +435,7 @@ fn cmd_copy() -> i32 {
                 let r = drv.copy(sources, &dest, stats).map_err(|e| e.to_string());
                 let _ = done_tx.send(r);
             });
-            match done_rx.recv_timeout(timeout) {
+            match recv_live(&done_rx, timeout) {
                 Ok(r) => result = r,
                 Err(_) => {
                     returned = false;
@@ -455,6 +455,35 @@ fn cmd_copy() -> i32 {
     println!("{}", json!({"ok": result.is_ok(), "error": result.err(), "returned": returned, "closed": closed, "updates": updates}));
     println!("RETURNED");
     0
+}
+
+
+/// process CPU time in clock ticks (utime + stime of /proc/self/stat)
+fn cpu_ticks() -> u64 {
+    let s = std::fs::read_to_string("/proc/self/stat").unwrap_or_default();
+    let rest = s.rsplit(')').next().unwrap_or("");
+    let f: Vec<&str> = rest.split_whitespace().collect();
+    f.get(11).and_then(|x| x.parse::<u64>().ok()).unwrap_or(0) + f.get(12).and_then(|x| x.parse::<u64>().ok()).unwrap_or(0)
+}
+
+/// recv with a liveness-aware deadline: a window without a message only counts as a hang when the process
+/// consumed (almost) no CPU during it (everything blocked) or after eight windows (spin / livelock); a process
+/// that is merely slow on a loaded machine keeps burning CPU and gets more windows.
+fn recv_live<T>(rx: &cbc::Receiver<T>, window: Duration) -> Result<T, cbc::RecvTimeoutError> {
+    let mut windows = 0;
+    loop {
+        let c0 = cpu_ticks();
+        match rx.recv_timeout(window) {
+            Err(cbc::RecvTimeoutError::Timeout) => {
+                windows += 1;
+                let used = cpu_ticks().saturating_sub(c0);
+                if used <= 2 || windows >= 8 {
+                    return Err(cbc::RecvTimeoutError::Timeout);
+                }
+            }
+            r => return r,
+        }
+    }
 }
 
 /// the public libfs copy functions with the Linux backend: copy_file / copy_sparse
